@@ -37,6 +37,7 @@ type Renderer struct {
 	// cur: the instruction whose operands are being rendered (the use site of a φ operand)
 	cur       ssa.Instruction
 	live      map[*ssa.BasicBlock]bool
+	liveBusy  bool
 	domFactsMemo map[*ssa.BasicBlock]map[string]bool
 	contraMemo   map[*ssa.BasicBlock]int
 	inContra     bool
@@ -1378,28 +1379,34 @@ func (r *Renderer) branchCond(from, to *ssa.BasicBlock) (ssa.Value, bool, bool) 
 // deadBlock: b cannot be reached from the entry once the branches whose outcome is fixed (a nil test of an error that
 // is known to be a failure value, or known to be nil) are taken into account.
 func (r *Renderer) deadBlock(b *ssa.BasicBlock) bool {
+	if r.liveBusy {
+		return false // asked while liveness itself is being computed (its facts are being rendered): no answer
+	}
 	if r.live == nil {
-		r.live = map[*ssa.BasicBlock]bool{}
+		r.liveBusy = true
+		live := map[*ssa.BasicBlock]bool{}
 		if len(r.fn.Blocks) > 0 {
 			work := []*ssa.BasicBlock{r.fn.Blocks[0]}
-			r.live[r.fn.Blocks[0]] = true
+			live[r.fn.Blocks[0]] = true
 			if r.fn.Recover != nil {
 				work = append(work, r.fn.Recover)
-				r.live[r.fn.Recover] = true
+				live[r.fn.Recover] = true
 			}
 			for len(work) > 0 {
 				c := work[len(work)-1]
 				work = work[:len(work)-1]
 				skip, skip2 := staticNilBranch(c), r.contradictedEdge(c)
 				for i, sc := range c.Succs {
-					if i == skip || i == skip2 || r.live[sc] {
+					if i == skip || i == skip2 || live[sc] {
 						continue
 					}
-					r.live[sc] = true
+					live[sc] = true
 					work = append(work, sc)
 				}
 			}
 		}
+		r.live = live
+		r.liveBusy = false
 	}
 	return b.Parent() == r.fn && !r.live[b]
 }
@@ -1425,6 +1432,8 @@ func stableValue(v ssa.Value, depth int) bool {
 	case *ssa.Extract:
 		_, isCall := x.Tuple.(*ssa.Call)
 		return isCall
+	case *ssa.Call:
+		return true // the result of a call already made
 	case *ssa.Convert:
 		return stableValue(x.X, depth+1)
 	case *ssa.ChangeType:
